@@ -67,6 +67,7 @@ func runC16(c *Ctx) {
 	{
 		g := NewGate(c.P)
 		g.Inline = inlineOnly("(*rules.NetworkRule).IsOptionEnabled", "(*rules.NetworkRule).IsOptionDisabled")
+		g.Unroll, g.ConstTables = true, true // a table of (modifier, disabled options) pairs is the same decision table
 		s := g.Eval(get)
 		u := g.U
 		res := g.RetExpr(s, 0)
